@@ -153,7 +153,13 @@ def rule_prefix(em, rep, rid):
     ap = appends[0]
     inloop = any(ap is x for s in loop.body for x in ast.walk(s))
     tgt = {x.id for x in ast.walk(loop.target) if isinstance(x, ast.Name)}
-    uses_answer = bool(ap.args) and isinstance(ap.args[0], ast.Call) and any(is_name(x) and x.id in tgt for x in ast.walk(ap.args[0]))
+    arg0 = ap.args[0] if ap.args else None
+    if isinstance(arg0, ast.Name):
+        # a local that holds the projection: assigned once, in the loop body, before the append
+        defs = [s_ for s_ in own_nodes_ordered(f.node) if isinstance(s_, ast.Assign) and any(is_name(t, arg0.id) for t in s_.targets)]
+        if len(defs) == 1 and any(defs[0] is b for b in loop.body) and defs[0].lineno <= ap.lineno and arg0.id not in f.all_params:
+            arg0 = defs[0].value
+    uses_answer = arg0 is not None and isinstance(arg0, ast.Call) and any(is_name(x) and x.id in tgt for x in ast.walk(arg0))
     apn = [m for m in em.nodes_for(f, ap) if m.kind == 'call' and m.ast is ap]
     heads = [m for m in cfg.nodes if m.kind == 'fornext' and m.stmt is loop]
     every_iter = False
@@ -163,7 +169,7 @@ def rule_prefix(em, rep, rid):
                             edge_ok=lambda lbl, x, y: lbl not in ('exc', 'throw', 'close')) if body else None
         every_iter = p is None
     if inloop and uses_answer and every_iter:
-        rep.ok(rid, key, 'append(%s) on every iteration; returned by %d return(s)' % (norm(ap.args[0]), len(rets)), f.loc(ap))
+        rep.ok(rid, key, 'append(%s) on every iteration; returned by %d return(s)' % (norm(arg0), len(rets)), f.loc(ap))
     else:
         rep.violation(rid, key + ':append', 'the projection of an answer may be skipped or is not what is appended '
                       '(in loop=%s, projection of the loop variable=%s, on every iteration=%s)' % (inloop, uses_answer, every_iter), f.loc(ap))
@@ -730,6 +736,11 @@ def rule_combine_order(em, rep, rid):
     for g in em.cg.reachable([f0], with_refs=False, include_nested=False):
         if g.cls is em.YP or g is f0:
             sites += [(g, n) for n, cs in em.cg.calls.get(g, ()) if helper is not None and helper in cs]
+    if helper is not None and not sites:
+        # ... or in a module-level function that is handed the engine: seen in the view of the load function, where the
+        # helper's body stands in place of its call (its engine parameter is ``self`` there)
+        fv = em.view(f0, keep=(helper,))
+        sites = [(fv, n) for n in own_nodes_ordered(fv.node) if isinstance(n, ast.Call) and is_name(n.func, helper.name)]
     if helper is None or not sites:
         rep.violation(rid, f0.qname + ':combine', 'no call to a chaining helper on the non-overwrite path: definitions cannot be combined', f0.loc())
         return
@@ -907,7 +918,7 @@ def _context_by_evaluation(em, cands):
     for c in cands:
         if not any(isinstance(n, ast.Attribute) and isinstance(n.ctx, ast.Store) and is_self_attr(n, 'eval_context') for n in own_nodes(c.node)):
             continue
-        sx = SymEx(em.repo, inline=lambda g: False, max_depth=2)
+        sx = SymEx(em.repo, inline=lambda g: g.cls is None and g.module.name == 'engine', max_depth=3)
         sx.max_steps = 20000
         try:
             outs = sx.run(c, [Sym(p) for p in c.params[1:]], PathState())
